@@ -1,7 +1,8 @@
 (* C07: the loader guarantee [shared_closed] FOLLOWS from the computable document
    well-formedness [doc_wf] (same oid => same tree among the anchored
-   occurrences; scalar keys / members; merged-in entries hold objects met
-   before), for every combination of the search options. *)
+   occurrences; scalar keys / members), for every combination of the search
+   options and any merge table (a merged-in entry hidden by the options is
+   walked by record_anchors, so nothing is asked of it). *)
 From Coq Require Import List Ascii String ZArith NArith Bool Arith Lia.
 From YP Require Import Outcome PyStr PyVal Doc Generated PathParser PathPrinter Searches PathsSearch SpecC07 PathsAlias.
 Import ListNotations.
